@@ -504,6 +504,18 @@ func cgHandleOne(r *Repo, fd *ast.FuncDecl) (bool, error) {
 	return chk, nil
 }
 
+// cgMarksDead: does the receiver remember a ConnError (handleOne sets c.broken, sendRecv refuses to register once it is set)?
+func cgMarksDead(r *Repo, ho, sr *ast.FuncDecl) (bool, error) {
+	h := cgExprString(r, ho.Body)
+	s := cgExprString(r, sr.Body)
+	sets := strings.Contains(h, "var connErr ConnError fatal := errors.As(err, &connErr) c.pendingMu.Lock() if fatal && c.broken == nil { c.broken = err } for _, resp := range c.pending")
+	checks := strings.Contains(s, "c.pendingMu.Lock() if c.broken != nil { err := c.broken c.pendingMu.Unlock() return fmt.Errorf(\"connection broken: %w\", err) } c.pending[tag(t)] = resp c.pendingMu.Unlock()")
+	if strings.Contains(h, "broken") != sets || strings.Contains(s, "broken") != checks || sets != checks {
+		return false, r.Refuse(ho.Pos(), "handleOne/sendRecv: use of c.broken not recognised")
+	}
+	return sets, nil
+}
+
 // cgReleaseFID: "" (no such helper) | "refused" (Put only when err is a linux.Errno)
 func cgReleaseFID(r *Repo, fd *ast.FuncDecl) (string, error) {
 	if fd == nil {
@@ -594,6 +606,10 @@ func runClientGen(r *Repo) (string, error) {
 	if err != nil {
 		return "", err
 	}
+	marks, err := cgMarksDead(r, ho, sr)
+	if err != nil {
+		return "", err
+	}
 	rel, err := cgReleaseFID(r, decls["Client.releaseFID"])
 	if err != nil {
 		return "", err
@@ -637,6 +653,7 @@ Record gmethod := mkgm {
 	fmt.Fprintf(&b, "Definition sendrecv_withdraws : bool := %v.\n", wd)
 	fmt.Fprintf(&b, "Definition sendrecv_keeps_withdrawn : bool := %v.\n", keep)
 	fmt.Fprintf(&b, "Definition handleone_checks_found : bool := %v.\n", chk)
+	fmt.Fprintf(&b, "(* the receiver remembers a ConnError: later calls fail without being registered *)\nDefinition recv_error_marks_dead : bool := %v.\n", marks)
 	fmt.Fprintf(&b, "Definition release_fid_policy : string := %s.\n\n", cgQ(rel))
 	b.WriteString("Definition methods : list gmethod := [\n")
 	for i, m := range ms {
